@@ -381,4 +381,188 @@ theorem closeDrain_recv (mode : Mode) : ∀ (count : Nat) (st : St) (av : Bytes)
       · simp only [hr]
         exact ih st' av'
 
+/-! ### every `coap_ws_read` call of the drain -/
+
+/-- the (reader state, bytes pending) pairs at which the drain loop calls `coap_ws_read(session, buf, 100)` -/
+def drainCalls (mode : Mode) : (count : Nat) → St → Bytes → List (St × Bytes)
+  | 0, _, _ => []
+  | c + 1, st, av =>
+    if av.length = 0 then drainCalls mode c st av
+    else
+      let r := readFrame mode drainBuf (av.length + fsCap + 2) st av
+      (st, av) :: (if recvCloseOf mode r.1 r.2.1 then [] else drainCalls mode c r.2.1 r.2.2)
+
+/-- `drainCalls` lists exactly the calls `closeDrain` makes -/
+theorem drainCalls_length (mode : Mode) : ∀ (count : Nat) (st : St) (av : Bytes),
+    (drainCalls mode count st av).length = (closeDrain mode count st av).2.2.2 := by
+  intro count
+  induction count with
+  | zero => intro st av; rfl
+  | succ c ih =>
+    intro st av
+    rw [closeDrain, drainCalls]
+    by_cases h0 : av.length = 0
+    · simp only [if_pos h0]; exact ih st av
+    · simp only [if_neg h0]
+      generalize readFrame mode drainBuf (av.length + fsCap + 2) st av = r
+      obtain ⟨ret, st', av'⟩ := r
+      simp only
+      by_cases hr : recvCloseOf mode ret st' = true
+      · simp [hr]
+      · simp [hr, ih st' av']
+
+/-- every call of the drain starts from an `RdOk` state (if the drain did) with no more bytes pending than at the start -/
+theorem drainCalls_ok (mode : Mode) : ∀ (count : Nat) (st : St) (av : Bytes), RdOk drainBuf st →
+    ∀ c ∈ drainCalls mode count st av, RdOk drainBuf c.1 ∧ c.2.length ≤ av.length := by
+  intro count
+  induction count with
+  | zero => intro st av _ c hc; simp [drainCalls] at hc
+  | succ n ih =>
+    intro st av hok c hc
+    rw [drainCalls] at hc
+    by_cases h0 : av.length = 0
+    · simp only [if_pos h0] at hc; exact ih st av hok c hc
+    · simp only [if_neg h0] at hc
+      have hfit := readFrame_fits mode drainBuf (av.length + fsCap + 2) st av
+      have hok' := (readFrame_ok mode drainBuf (av.length + fsCap + 2) st av hok).1
+      generalize readFrame mode drainBuf (av.length + fsCap + 2) st av = r at hc hfit hok'
+      obtain ⟨ret, st', av'⟩ := r
+      simp only [List.mem_cons] at hc
+      rcases hc with rfl | hc
+      · exact ⟨hok, Nat.le_refl _⟩
+      · by_cases hr : recvCloseOf mode ret st' = true
+        · simp [hr] at hc
+        · simp only [hr] at hc
+          have := ih st' av' hok' c hc
+          exact ⟨this.1, Nat.le_trans this.2 hfit.1⟩
+
+/-- the drain as a whole: the final state is `RdOk`, bytes are only consumed -/
+theorem closeDrain_ok (mode : Mode) : ∀ (count : Nat) (st : St) (av : Bytes),
+    (closeDrain mode count st av).2.2.1.length ≤ av.length ∧
+    (RdOk drainBuf st → RdOk drainBuf (closeDrain mode count st av).2.1) := by
+  intro count
+  induction count with
+  | zero => intro st av; exact ⟨Nat.le_refl _, id⟩
+  | succ c ih =>
+    intro st av
+    rw [closeDrain]
+    by_cases h0 : av.length = 0
+    · simp only [if_pos h0]; exact ih st av
+    · simp only [if_neg h0]
+      have hfit := readFrame_fits mode drainBuf (av.length + fsCap + 2) st av
+      have hok' := fun h => (readFrame_ok mode drainBuf (av.length + fsCap + 2) st av h).1
+      generalize readFrame mode drainBuf (av.length + fsCap + 2) st av = r at hfit hok'
+      obtain ⟨ret, st', av'⟩ := r
+      simp only
+      by_cases hr : recvCloseOf mode ret st' = true
+      · simp only [hr, if_true]; exact ⟨hfit.1, hok'⟩
+      · simp only [hr]
+        have := ih st' av'
+        exact ⟨Nat.le_trans this.1 hfit.1, fun h => this.2 (hok' h)⟩
+
+/-! ### what the drain does when it cannot see the peer's Close frame -/
+
+/-- once a call has emptied the socket the loop only waits: no further `coap_ws_read`, whatever was left in
+`rd_header` (select() reports on the socket, not on `rd_header`) -/
+theorem closeDrain_socket_empty (mode : Mode) (c : Nat) (st st' : St) (av : Bytes) (ret : Ret) (hav : av ≠ [])
+    (h : readFrame mode drainBuf (av.length + fsCap + 2) st av = (ret, st', [])) :
+    closeDrain mode (c + 1) st av = (recvCloseOf mode ret st', st', [], 1) := by
+  rw [closeDrain]
+  have h0 : ¬ av.length = 0 := by intro h; exact hav (List.eq_nil_of_length_eq_zero h)
+  simp only [if_neg h0, h]
+  by_cases hr : recvCloseOf mode ret st' = true
+  · simp [hr]
+  · simp [hr, closeDrain_idle]
+
+theorem recvCloseOf_pkt (mode : Mode) (pl : Bytes) (st : St) : recvCloseOf mode (.pkt pl) st = false := by
+  unfold recvCloseOf; split <;> simp_all
+
+/-- a frame that arrived in the same header read as the peer's Close frame: the call returns that frame's payload,
+the socket is empty, the Close frame (and whatever else) stays in `rd_header` unseen: `recv_close` stays 0 -/
+theorem closeDrain_close_unseen (mode : Mode) (c : Nat) (st st' : St) (av pl : Bytes) (hav : av ≠ [])
+    (h : readFrame mode drainBuf (av.length + fsCap + 2) st av = (.pkt pl, st', [])) :
+    closeDrain mode (c + 1) st av = (false, st', [], 1) := by
+  rw [closeDrain_socket_empty mode c st st' av _ hav h, recvCloseOf_pkt]
+
+/-- after a 1009 refusal (`all_hdr_in` set, `data_size` above the 100-byte buffer) every call fails with -1 before it
+reads anything: the loop spends its `count` rounds, state and pending bytes untouched, `recv_close` stays 0 -/
+theorem closeDrain_oversize (mode : Mode) : ∀ (count : Nat) (st : St) (av : Bytes), st.allHdrIn = true →
+    st.dataSize > drainBuf →
+    closeDrain mode count st av = (false, st, av, if av.length = 0 then 0 else count) := by
+  intro count
+  induction count with
+  | zero => intro st av _ _; simp [closeDrain]
+  | succ c ih =>
+    intro st av ha hs
+    rw [closeDrain]
+    by_cases h0 : av.length = 0
+    · simp only [if_pos h0]; rw [ih st av ha hs]; simp [h0]
+    · simp only [if_neg h0]
+      have e : readFrame mode drainBuf (av.length + fsCap + 2) st av = (.err, st, av) := by
+        rw [readFrame_dataD _ _ _ _ _ ha]; unfold readData; rw [if_pos hs]
+      rw [e]
+      have hr : recvCloseOf mode .err st = false := by unfold recvCloseOf; split <;> simp_all
+      simp only [hr, ih st av ha hs, if_neg h0]
+      simp
+
+/-- a header the reader has refused with 1002 (unmasked frame to a server) or 1003 (complete header, opcode neither
+binary nor close) and left in `rd_header` -/
+def Refused (mode : Mode) (st : St) : Prop :=
+  st.allHdrIn = false ∧ ∃ b0 b1 r, st.rdHeader = b0 :: b1 :: r ∧
+    ((mode = .server ∧ ¬ b1.toNat / 128 = 1) ∨
+     (hExtra b1.toNat ≤ r.length ∧ b0.toNat % 16 ≠ 2 ∧ b0.toNat % 16 ≠ 8))
+
+/-- a call on a refused header refuses it again: it only tops `rd_header` up -/
+theorem readFrame_refused (mode : Mode) (datalen fuel : Nat) (st : St) (av : Bytes) (h : Refused mode st) :
+    readFrame mode datalen (fuel + 1) st av =
+      (.closed, { st with rdHeader := st.rdHeader ++ av.take (fsCap - st.rdHeader.length) }, av.drop (fsCap - st.rdHeader.length)) ∧
+    Refused mode { st with rdHeader := st.rdHeader ++ av.take (fsCap - st.rdHeader.length) } := by
+  obtain ⟨ha, b0, b1, r, hr, hc⟩ := h
+  have hh : st.rdHeader ++ av.take (fsCap - st.rdHeader.length) = b0 :: b1 :: (r ++ av.take (fsCap - st.rdHeader.length)) := by
+    rw [hr]; rfl
+  refine ⟨?_, ha, b0, b1, _, hh, ?_⟩
+  · rw [readFrame_hdrD _ _ _ _ _ b0 b1 _ ha hh, ← hh]
+    unfold afterHdrD
+    rcases hc with ⟨hm, hb⟩ | ⟨hl, h2, _⟩
+    · rw [if_pos ⟨hm, hb⟩]
+    · by_cases c1 : mode = .server ∧ ¬ b1.toNat / 128 = 1
+      · rw [if_pos c1]
+      · rw [if_neg c1, if_neg (by simp only [List.length_append]; omega), if_pos h2]
+  · rcases hc with hc | ⟨hl, h2, h8⟩
+    · exact Or.inl hc
+    · exact Or.inr ⟨by simp only [List.length_append]; omega, h2, h8⟩
+
+theorem recvCloseOf_refused (mode : Mode) (ret : Ret) (st : St) (h : Refused mode st) : recvCloseOf mode ret st = false := by
+  obtain ⟨ha, b0, b1, r, hr, hc⟩ := h
+  unfold recvCloseOf
+  rw [hr]
+  cases ret <;> simp only [] 
+  rcases hc with ⟨hm, hb⟩ | ⟨_, h2, h8⟩
+  · simp [hm, hb]
+  · simp [h8]
+
+/-- after a 1002/1003 refusal the drain cannot progress: every call refuses the same header again, at most the free
+room of `rd_header` is taken from the socket, `recv_close` stays 0 -/
+theorem closeDrain_refused (mode : Mode) : ∀ (count : Nat) (st : St) (av : Bytes), Refused mode st →
+    (closeDrain mode count st av).1 = false ∧ Refused mode (closeDrain mode count st av).2.1 ∧
+    av.length ≤ (closeDrain mode count st av).2.2.1.length + (fsCap - st.rdHeader.length) := by
+  intro count
+  induction count with
+  | zero => intro st av h; exact ⟨rfl, h, by simp [closeDrain]⟩
+  | succ c ih =>
+    intro st av h
+    rw [closeDrain]
+    by_cases h0 : av.length = 0
+    · simp only [if_pos h0]; exact ih st av h
+    · simp only [if_neg h0]
+      obtain ⟨e, h'⟩ := readFrame_refused mode drainBuf (av.length + fsCap + 1) st av h
+      rw [show av.length + fsCap + 2 = av.length + fsCap + 1 + 1 from rfl, e]
+      simp only [recvCloseOf_refused mode _ _ h']
+      have := ih _ (av.drop (fsCap - st.rdHeader.length)) h'
+      refine ⟨this.1, this.2.1, ?_⟩
+      have h3 := this.2.2
+      simp only [List.length_append, List.length_take, List.length_drop] at h3
+      simp only [Bool.false_eq_true, if_false]
+      omega
+
 end Coap
